@@ -507,8 +507,11 @@ def rule_fill(ctx):
                     '%s._default is %r, expected %r' % (name, v, want),
                     file=c[0].module.rel, function=name, line=c[0].node.lineno)
     # siblings
-    sib = [(p.func(FUNCS_REL, 'Array.reshape'), 'self'),
-           (p.func(RANGES, '_reshape_array_as_excel'), 'value')]
+    ra_ = p.func(RANGES, '_reshape_array_as_excel')
+    ar_ = p.func(FUNCS_REL, 'Array.reshape')
+    # the value being fitted is the first parameter of each, whatever its name
+    sib = [(ar_, ar_.params[0] if ar_.params else 'self'),
+           (ra_, ra_.params[0] if ra_.params else 'value')]
     for f, val in sib:
         rr.instances += 1
         # `res, r, c = <call resolved to _init_reshape>(...)`, however the
